@@ -47,7 +47,17 @@ def rand_update(rng):
     elif r < 0.5:
         d[rng.choice(gen.AAS)] = None
         kind = "nonstring"
-    return d, kind
+    if rng.random() < 0.25 and kind in ("missing", "badcolour"):
+        # a second, different defect in the same dictionary
+        if kind == "missing":
+            d[rng.choice([a for a in gen.AAS if a in d])] = rng.choice(BADCOL)
+        else:
+            del d[rng.choice([a for a in gen.AAS if a in d and d[a] in COLOURS])]
+        kind = "missing+badcolour"
+    items = list(d.items())
+    if rng.random() < 0.7:
+        rng.shuffle(items)          # the caller's insertion order is arbitrary (grouped by chemistry, reversed, ...)
+    return dict(items), kind
 
 
 def cases(rng, tier):
